@@ -519,8 +519,9 @@ fn huf_impl(line: &str) -> String {
     match r { Ok(s) => s, Err(m) => format!("PANIC {m}") }
 }
 
-fn huf_check(rep: &mut Report, line: &str, reply: &str) {
+fn huf_check(rep: &mut Report, line: &str, reply_both: &str) {
     let got = huf_impl(line);
+    let (reply, model) = reply_both.split_once(" ;; ").unwrap_or((reply_both, "?"));
     let nontrivial = reply != "invalid";
     rep.case(line, nontrivial);
     rep.hit(if nontrivial { "entropy_decoder_tie_valid_code" } else { "entropy_decoder_tie_invalid_lengths" });
@@ -531,8 +532,12 @@ fn huf_check(rep: &mut Report, line: &str, reply: &str) {
         if nontrivial && mx == 15 { rep.hit("entropy_decoder_tie_depth_15"); }
     }
     if got != reply {
-        rep.disagree(Disagreement { case: line.to_string(), got, expected: reply.to_string(), class: "violation",
+        rep.disagree(Disagreement { case: line.to_string(), got: got.clone(), expected: reply.to_string(), class: "violation",
             obligation: "HuffmanTree::build_implicit + read_symbol = the specification's canonical prefix decoder (Prefix.validLengths / Prefix.decodeSymbol) on the same lengths and bits".into(), detail: String::new() });
+    }
+    if got != model {
+        rep.disagree(Disagreement { case: line.to_string(), got, expected: model.to_string(), class: if model != reply { "correspondence" } else { "violation" },
+            obligation: "tie2: HuffmanTree::build_implicit + read_symbol = Huff.build + Huff.readSym (Model/Huffman.lean)".into(), detail: String::new() });
     }
 }
 
